@@ -4,6 +4,8 @@ import json, os, subprocess
 ROOT = os.path.dirname(os.path.dirname(os.path.abspath(__file__)))
 TECH = "symbolic evaluation of the real Python source (own AST->z3 evaluator py2smt) + SMT (z3 5.1; cvc5/z3-4.8 cross-check in thorough tier), counterexamples replayed on the real code"
 CLAIMED = {
+    "C01": ("2. C01", "BTP request (header prepend, SDU length, parameter pass-through incl. destination address) and BTP indication (port demultiplexing over two symbolic registered ports, payload and parameters intact) for BTP-A/B; end-to-end composition for SHB, GBC, GAC and GUC: the packet emitted by the symbolically evaluated source operation of station A is fed, as a term, into the symbolically evaluated receive path of station B (and of A itself): delivered exactly once when in range / inside the area, never outside, payload byte-identical, source PV equal to A's ego PV field by field over the signed WGS-84 range, A ignores its own packet.",
+            "Payload lengths from a stated menu; 'inside the area' is the sign of a free geometric value (decided in C07); location tables follow the table contract; the location-service buffering part (LS1-LS4 of DESIGN) and request ordering are not built yet; security-on variant not covered."),
     "C07": ("2. C07", "Geometric function F for all six area sub-types and a menu of azimuth angles against EN 302 931's F on the rotated coordinates (projected offsets and semi-axes symbolic, nonlinear real arithmetic); the equirectangular projection and the coordinates handed to it; area-size kernel against pi*a^2 / pi*a*b / 4*a*b and its use in the source operation (refused and nothing sent iff above itsGnMaxGeoAreaSize); Annex D forwarding-algorithm selection over arbitrary F(ego), F(sender), PAI and entry presence; GBC/GAC receivers deliver iff F(ego) >= 0, never forward oversized areas, and the GBC forwarder discards per Annex D.",
             "Real arithmetic (border band |F| <= 1e-6 excluded, as the property allows); azimuth taken from a finite menu of integer degrees; the projection itself (EN 302 931 leaves it open) is checked only against the equirectangular formula with cos uninterpreted; store-carry-forward buffering is unimplemented in the code and outside the claim."),
     "C19": ("2. C19", "Reactive DCC: four consecutive update() calls from an arbitrary state with an arbitrary real CBR, for both Annex A tables (typed in independently): one step towards the band state per evaluation, outputs = Annex A row, band state reached within four, CBR outside [0,1] rejected. Adaptive DCC: update() from arbitrary stored CBR_ITS-S/delta against clause 5.4 steps 1-5, stored = returned, within [delta_min, delta_max] (default parameters; all parameters symbolic in the thorough tier). Gate keeper: admit_packet / update_delta / is_open one step from an arbitrary state under the invariant 25 ms <= t_go - t_pg <= 1 s: B.1, B.2, admit iff open, 25 ms spacing, reopening within 1 s, invariant preserved.",
